@@ -41,6 +41,15 @@ func (e *Exec) unop(s *State, f *Frame, in *ssa.UnOp) Value {
 				v = nv
 			}
 		}
+		if iv, ok := v.(*IfaceV); ok && p.Ref.Obj.Global != nil && len(p.Ref.Path) == 0 && !iv.Nil.Const {
+			if e.w.globalInitNonNil(p.Ref.Obj.Global) {
+				// e.g. var errX = errors.New("..."): sentinel errors are non-nil
+				e.note("package-level error variables initialised with errors.New / fmt.Errorf are non-nil")
+				nv := &IfaceV{Nil: False, ID: iv.ID}
+				e.lazyInit[p.Ref.Obj] = nv
+				v = nv
+			}
+		}
 		if sv, ok := v.(*SliceV); ok && isString(in.Type()) {
 			// *(*string)(unsafe.Pointer(&b)): the slice header read as a string header
 			if sv.Base == nil {
